@@ -294,7 +294,10 @@ func emit(r mutantResult) int {
 var negctlRenames = []string{"coord -> cpt", "subsetGlyphID -> sid", "dpmm -> pxPerMm", "xmin -> lox", "ymax -> hiy", "strokeUnsupported -> noNative", "sinphi -> sphi", "cosphi -> cphi",
 	"zindices -> zs", "copied -> didCopy", "startTheta -> thetaFrom", "i0 -> idx0", "pos0 -> phase0", "states -> segs", "rhsJoinIndex -> rji", "lineCap -> capCode", "lineJoin -> joinCode",
 	"curSeg -> segNo", "objOffset -> off", "dashOffset -> dOff", "tsub -> trel", "pOverlaps -> pTouch", "qOverlaps -> qTouch", "belowFills -> fillsBelow", "aboveFills -> fillsAbove",
-	"lowerWindings -> wLo", "upperOtherWindings -> woHi"}
+	"lowerWindings -> wLo", "upperOtherWindings -> woHi",
+	// locals of the functions the later rules look at
+	"thetaTop -> angY", "thetaRight -> angX", "dashArray -> dashArr", "totalLength -> period", "widths -> advs", "first -> subStart", "open -> pending",
+	"fun -> fnName", "hw -> halfW", "prevCmd -> lastCmd", "repeat -> again", "keepPath -> keep", "sfntSubset -> sub", "glyphIDs -> gids"}
 
 func renameOverlay(repo string) (map[string][]byte, error) {
 	tmp, err := os.MkdirTemp("", "canvascheck-negctl")
